@@ -1,8 +1,8 @@
 (** C01 — simulated time never runs backwards and callbacks see their due time. *)
 From Coq Require Import List ZArith Bool.
 Import ListNotations.
-From GS Require Import Num NumZ EventLoop Kernel Sim.
-From GS.Proofs Require Import Aux EventLoopP KernelP SimP DriveP SimDriveP TraceSpec ClockSpec.
+From GS Require Import HeapLoop Num NumZ EventLoop Kernel Sim.
+From GS.Proofs Require Import HeapLoopP Aux EventLoopP KernelP SimP DriveP SimDriveP TraceSpec ClockSpec.
 
 (** Every state reachable from a fresh event loop by any history of API calls keeps all
     queued events at or after the clock (and their sequence numbers distinct). *)
@@ -122,6 +122,15 @@ Example C01_example :
   = [RScheduled; RScheduled; RPopped 3%Z 1%nat; RRefused; RScheduled; RPopped 3%Z 3%nat; RPopped 5%Z 0%nat; RNow 5%Z].
 Proof. vm_compute. reflexivity. Qed.
 
+(** The event loop as the code keeps it -- an array handled by heapq.heappush / heapq.heappop, peek
+    reading cell 0 ([HeapLoop.v], CPython's heapq transcribed in [Heap.v]) -- answers EVERY history of
+    schedule / pop / peek / clear / len / now calls exactly as the list-and-selection model the
+    theorems above are about; so they hold of the heap-based loop as well. *)
+Theorem C01_heap_based_loop_answers_as_the_model :
+  forall (F : Type) (A : ArithOps F), OrderLaws A -> forall (P : Type) (ops : list (el_op F P)),
+    snd (hl_run A (hl_init A) ops) = snd (el_run A (el_init A) ops).
+Proof. intros F A OL P. exact (hl_run_from_init A OL). Qed.
+
 Print Assumptions C01_reachable_inv.
 Print Assumptions C01_pops_monotone.
 Print Assumptions C01_clock_monotone.
@@ -133,3 +142,4 @@ Print Assumptions C01_any_driving_exec_times.
 Print Assumptions C01_external_requests_are_driving.
 Print Assumptions C01_callback_sees_due_time.
 Print Assumptions C01_requests_not_in_past.
+Print Assumptions C01_heap_based_loop_answers_as_the_model.
